@@ -363,6 +363,7 @@ template <class T> struct SweepBox
     std::string    name;
     Box<Vec3<T>>   b;
     std::vector<T> P[3]; // explicit origin coordinate lists (empty: derived from the box by posList)
+    std::vector<T> D;    // explicit direction component list (empty: the extreme-value list of the sweep)
 };
 
 // Blocks: first the DETERMINISTIC ones (independent of the seed: the canonical witness of
@@ -378,7 +379,7 @@ template <class T> static void sweep (uint64_t seed, bool thorough, int lineBloc
     // -0.0 LAST (keeps the relative order, hence the canonical witnesses, of all other cases): `-0.0 >= 0` is true and
     // `-0.0 > 0`, `-0.0 < 0` are false, so it must behave exactly like +0.0 (the tie with the model executed in floating
     // point checks that; a rewrite through signbit / copysign / 1/dir would not)
-    std::vector<T> D = {T (0), T (1), T (-1), dn, -dn, T (1e-30), T (-1e-30), T (1e30), T (-1e30), M / 2, -M / 2, -T (0)};
+    std::vector<T> Dx = {T (0), T (1), T (-1), dn, -dn, T (1e-30), T (-1e-30), T (1e30), T (-1e30), M / 2, -M / 2, -T (0)};
     std::vector<SweepBox<T>> boxes;
     auto add = [&] (const char* name, const Box<Vec3<T>>& b) { SweepBox<T> sb; sb.name = name; sb.b = b; boxes.push_back (sb); };
     // --- deterministic
@@ -398,6 +399,37 @@ template <class T> static void sweep (uint64_t seed, bool thorough, int lineBloc
     {
         Box<Vec3<T>> b; b.makeInfinite ();
         add ("fixed-infinite", b);
+    }
+    for (int sgn = 0; sgn < 2; ++sgn)
+        for (int ax = 0; ax < 3; ++ax)
+        {
+            // the overflow block with the axes permuted and mirrored, so that `face - pos` overflows on every axis and
+            // on both sides (every per-axis, per-sign copy of the guard code meets an infinite difference)
+            if (sgn == 0 && ax == 0) continue; // = fixed-overflow above
+            static const char* nm[2][3] = {{"", "fixed-overflow-y", "fixed-overflow-z"},
+                                           {"fixed-overflow-neg-x", "fixed-overflow-neg-y", "fixed-overflow-neg-z"}};
+            SweepBox<T> sb;
+            sb.name = nm[sgn][ax];
+            int a1 = (ax + 1) % 3, a2 = (ax + 2) % 3;
+            Vec3<T> mn (-1, -1, -1), mx (1, 1, 1);
+            mn[ax] = sgn ? -M : M / 2;
+            mx[ax] = sgn ? -M / 2 : M;
+            sb.b     = Box<Vec3<T>> (mn, mx);
+            sb.P[ax] = sgn ? std::vector<T>{M, M / 2} : std::vector<T>{-M, -M / 2};
+            sb.P[a1] = {T (-3), T (0)};
+            sb.P[a2] = {T (0)};
+            boxes.push_back (sb);
+        }
+    {
+        // MID-RANGE magnitudes (between the 2^5 lattices and the 1e30 extremes): coordinates 1e5 .. 1e15, extents 2e5 / 2e7 / 2e9
+        // (with direction ratios up to 3000:1 every pair of axes competes for the entry / exit parameter), unit-order
+        // directions: no guard fails, every operation rounds heavily.  Tied bit for bit to the model executed in
+        // floating point; hit/miss vs the exact oracle where robust.
+        SweepBox<T> sb;
+        sb.name = "fixed-mid";
+        sb.b    = Box<Vec3<T>> (Vec3<T> (T (1e5), T (-3e7), T (1e15)), Vec3<T> (T (3e5), T (-1e7), T (1e15) + T (2e9)));
+        sb.D    = {T (0), T (1), T (-1), T (0.3), T (-0.3), T (0.7), T (-0.7), T (3), T (-3), T (1e-3), T (-1e-3)};
+        boxes.push_back (sb);
     }
     // --- seeded
     {
@@ -428,6 +460,7 @@ template <class T> static void sweep (uint64_t seed, bool thorough, int lineBloc
         const Box<Vec3<T>>& b = boxes[bi].b;
         std::vector<T>      P[3];
         for (int a = 0; a < 3; ++a) P[a] = boxes[bi].P[a].empty () ? posList<T> (b.min[a], b.max[a]) : boxes[bi].P[a];
+        const std::vector<T>& D = boxes[bi].D.empty () ? Dx : boxes[bi].D;
         if (lineBlock >= 0)
         {
             if ((int) bi != lineBlock) continue;
